@@ -32,6 +32,8 @@ namespace vsched {
 void mutex_lock(void *m);
 void mutex_unlock(void *m);
 void cv_wait(void *cv, void *m);
+bool cv_wait_timed(void *cv, void *m); // false = timed out (time is not modelled: a timed waiter may time out at any point)
+bool mutex_try_lock(void *m);
 void cv_notify(void *cv, bool all);
 int thread_start(std::function<void()> fn);
 void thread_join(int id);
@@ -45,6 +47,7 @@ public:
   vmutex &operator=(const vmutex &) = delete;
   void lock() { vsched::mutex_lock(this); }
   void unlock() { vsched::mutex_unlock(this); }
+  bool try_lock() { return vsched::mutex_try_lock(this); }
 };
 class vcondition_variable {
 public:
@@ -55,6 +58,22 @@ public:
   void wait(std::unique_lock<vmutex> &lk) { vsched::cv_wait(this, lk.mutex()); }
   template <class Pred> void wait(std::unique_lock<vmutex> &lk, Pred p) {
     while (!p()) wait(lk);
+  }
+  template <class Rep, class Period> std::cv_status wait_for(std::unique_lock<vmutex> &lk, const std::chrono::duration<Rep, Period> &) {
+    return vsched::cv_wait_timed(this, lk.mutex()) ? std::cv_status::no_timeout : std::cv_status::timeout;
+  }
+  template <class Rep, class Period, class Pred> bool wait_for(std::unique_lock<vmutex> &lk, const std::chrono::duration<Rep, Period> &d, Pred p) {
+    while (!p())
+      if (wait_for(lk, d) == std::cv_status::timeout) return p();
+    return true;
+  }
+  template <class Clock, class Dur> std::cv_status wait_until(std::unique_lock<vmutex> &lk, const std::chrono::time_point<Clock, Dur> &) {
+    return vsched::cv_wait_timed(this, lk.mutex()) ? std::cv_status::no_timeout : std::cv_status::timeout;
+  }
+  template <class Clock, class Dur, class Pred> bool wait_until(std::unique_lock<vmutex> &lk, const std::chrono::time_point<Clock, Dur> &t, Pred p) {
+    while (!p())
+      if (wait_until(lk, t) == std::cv_status::timeout) return p();
+    return true;
   }
 };
 class vthread {
@@ -73,6 +92,10 @@ public:
     return *this;
   }
   bool joinable() const noexcept { return id_ >= 0; }
+  void detach() { id_ = -1; }
+  int get_id() const noexcept { return id_; }
+  static unsigned hardware_concurrency() noexcept { return 16; }
+  void swap(vthread &o) noexcept { std::swap(id_, o.id_); }
   void join() {
     vsched::thread_join(id_);
     id_ = -1;
